@@ -224,6 +224,32 @@ func main() {
 	cmd.Env = goEnv()
 	out, err := cmd.CombinedOutput()
 	if err != nil {
+		// An in-package accessor that calls private code directly may stop
+		// compiling when that code is renamed or reshaped.  Every such file has
+		// a "<file>.stub" next to it with the same API reporting "unavailable":
+		// swap in the stubs of the files the compiler complains about and build
+		// once more (the harness then decides with its black-box oracles).
+		swapped := 0
+		for dst, src := range ov {
+			if !strings.Contains(string(out), dst) && !strings.Contains(string(out), src) {
+				continue
+			}
+			if _, e := os.Stat(src + ".stub"); e == nil {
+				ov[dst] = src + ".stub"
+				swapped++
+				fmt.Fprintf(os.Stderr, "vcheck: %s no longer compiles against the tree; using its stub (state-based oracles of this accessor are skipped)\n", filepath.Base(src))
+			}
+		}
+		if swapped > 0 {
+			ovb, _ := json.MarshalIndent(map[string]any{"Replace": ov}, "", " ")
+			os.WriteFile(ovPath, ovb, 0o644)
+			cmd2 := exec.Command(cmd.Args[0], cmd.Args[1:]...)
+			cmd2.Dir = repoDir
+			cmd2.Env = goEnv()
+			out, err = cmd2.CombinedOutput()
+		}
+	}
+	if err != nil {
 		fmt.Fprintf(os.Stderr, "vcheck: harness build failed (machinery, not a violation):\n%s\n", out)
 		os.Exit(2)
 	}
@@ -633,8 +659,12 @@ func racePass(cfg checkCfg, checkDir, work, tier string, instrOv map[string]stri
 		cmd.Dir = repoDir
 		cmd.Env = goEnv()
 		if out, err := cmd.CombinedOutput(); err != nil {
-			fmt.Fprintf(os.Stderr, "vcheck: race-pass build failed (machinery, not a violation):\n%s\n", out)
-			os.Exit(2)
+			// the bodies are compiled against private names of the package; when
+			// those change the supplementary pass is skipped (and says so) rather
+			// than taking the exhaustive verdict down with it
+			fmt.Fprintf(os.Stderr, "vcheck: race-pass bodies of %s no longer compile against the tree; the supplementary race pass is skipped:\n%s\n", rc.Pkg, firstLines(string(out), 6))
+			pkgs = append(pkgs, map[string]any{"pkg": rc.Pkg, "skipped": "bodies do not compile against the current tree", "build_output": firstLines(string(out), 6)})
+			continue
 		}
 		iters := rc.ItersQuick
 		if tier == "thorough" {
